@@ -368,10 +368,18 @@ macro_rules! single_type_arith {
     };
 }
 
-single_type_arith!(rem, Int, |a, b| if b == I::zero() {
+single_type_arith!(rem, Int, |a: I, b: I| if b == I::zero() {
     Val::Error(ExError::new("% by zero"))
 } else {
-    Val::Int(a % b)
+    // a % b = a - (a / b) * b, where checked_div is None for the overflowing MIN / -1
+    match a
+        .checked_div(&b)
+        .and_then(|quotient| quotient.checked_mul(&b))
+        .and_then(|product| a.checked_sub(&product))
+    {
+        Some(res) => Val::Int(res),
+        None => Val::Error(exerr!("overflow in {:?}%{:?}", a, b)),
+    }
 });
 single_type_arith!(bitwise_or, Int, |a, b| Val::Int(a | b));
 single_type_arith!(bitwise_and, Int, |a, b| Val::Int(a & b));
